@@ -8,6 +8,7 @@ if [ -n "$(git -C /repo status --porcelain --untracked-files=no)" ]; then echo "
 for s in "${seeds[@]}"; do
 	prop=${s%%-*}
 	grep -q "\"property_id\": \"$prop\"" MANIFEST.json || { echo -e "$s\t$prop\t$tier\tno-check-yet"; continue; }
+	if grep -q '"status": "neutralised' seeded/$s/meta.json 2>/dev/null; then printf "%s\t%s\t%s\tneutralised by a later fix (see meta.json)\n" "$s" "$prop" "$tier" | tee -a seeded/RESULTS.tsv; continue; fi
 	git -C /repo apply /verif/seeded/$s/patch.diff || { echo -e "$s\t$prop\t$tier\tapply-failed"; continue; }
 	start=$(date +%s)
 	./check $prop $tier > .work/seed-$s.log 2>&1; rc=$?
